@@ -37,7 +37,14 @@ Section Model.
         let sr := fst (SetFileMode_call e s m p) in
         let p' := snd (SetFileMode_call e s m p) in
         bind sr (fun s1 => run_filepps e s1 p' r)
+    | PPExternal f :: r =>
+        let sr := fst (ExternalProgram_call e s f p) in
+        let p' := snd (ExternalProgram_call e s f p) in
+        bind sr (fun s1 => run_filepps e s1 p' r)
     end.
+
+  Definition no_external (pps : list filepp) : bool :=
+    forallb (fun pp => match pp with PPExternal _ => false | _ => true end) pps.
 
   Definition run_act (e : env) (c : cfg) (p : path) (a : act) (s : fs) : fs * result :=
     match a with
@@ -152,6 +159,7 @@ Section Model.
     match pps with
     | [] => d
     | PPSetFileMode m :: r => last_mode r (N.land m 4095)
+    | PPExternal _ :: r => last_mode r d
     end.
 
   (* the file a run of c is supposed to leave at target p: its own text with the requested mode *)
